@@ -133,7 +133,9 @@ func (se *Session) Exec(q Query) *Result {
 	t := NewTask(0, q.Order, DefaultBudget)
 	prev := simrt.Current()
 	simrt.SetCurrent(t)
+	se.S.BeginQuery(q.Order.P)
 	res := se.ExecInTask(q)
+	se.S.EndQuery()
 	if prev.ID == -1 {
 		simrt.SetCurrent(nil)
 	} else {
